@@ -43,3 +43,15 @@ Print Assumptions C22_sort_canonical.
 Example C22_ex : po_u (par_acc ex_D1 ex_d 0 0 0 [] [2; 1] [2; 1]) = [(1, 10); (2, 20)]
               /\ map t_from (po_t (par_acc ex_D1 ex_d 0 0 0 [] [1] [2; 1])) = [1; 2].
 Proof. split; vm_compute; reflexivity. Qed.
+
+(* the accumulation-output log θ′ (12.26) of a block: whatever order the map of (service, hash) pairs — the
+   union over ALL rounds, so one service may contribute two different hashes — is delivered in, the sequence
+   ordered by service then hash is the same; the comparator without the hash tie-break is order dependent *)
+Theorem C22_theta_canonical : forall l1 l2, Permutation l1 l2 -> theta_of l1 = theta_of l2.
+Proof. exact theta_canonical. Qed.
+Print Assumptions C22_theta_canonical.
+
+Theorem C22_theta_service_only_refuted :
+  exists l1 l2, Permutation l1 l2 /\ sortP service_only_leb l1 <> sortP service_only_leb l2.
+Proof. exact theta_service_only_refuted. Qed.
+Print Assumptions C22_theta_service_only_refuted.
